@@ -43,7 +43,7 @@ package jrpc2
 // holds the result of a successful fetch (a failed fetch is never stored).
 //@ spec segOK(c *cache, k key) bool = has(c.segments, k) ==> c.segments[k] != nil && ((*c.segments[k]).done ==> fetched((*c.segments[k]).d))
 
-//@ func (*cache).pruneMaxRead props=C08
+//@ func (*cache).pruneMaxRead props=C08,C03
 //@   requires c.segments != nil && (forall k key :: has(c.segments, k) ==> c.segments[k] != nil)
 //@   ensures [subset] forall k key :: has(c.segments, k) ==> old(has(c.segments, k)) && c.segments[k] == old(c.segments[k])
 //@   ensures [expired-removed] forall k key :: has(c.segments, k) ==> (*c.segments[k]).nreads < c.maxreads
